@@ -19,7 +19,7 @@
      RG      DOMImplementationRegistry::getDOMImplementation: enter(gDOMImplSrcVectorMutex); rg_len; [rg_add]; leave
      LCP     ICULCPTranscoder: enter(fMutex); ucnv_* on the one shared converter (lcp_use); leave
      SPA(p,x) XMLSynchronizedStringPool::addOrFind: sp_const (unlocked look-up in the constant pool);
-               enter(pool mutex); sp_add (XMLStringPool::addOrFind); leave   -> id + constCount
+               enter(pool mutex); sp_find, sp_add (XMLStringPool::addOrFind = look-up, addNewEntry); leave -> id + constCount
      SPG(p,x) XMLSynchronizedStringPool::getId: sp_const; enter; spg_get; leave
      GPC(g)  XMLGrammarPoolImpl::cacheGrammar on the LOCKED pool: refused, nothing changes
      GPU     XMLGrammarPoolImpl::getURIStringPool on the locked pool: hands out the synchronized pool
@@ -98,7 +98,7 @@ Begin(t, op) == pc[t] = "idle" /\ cur[t] = NoOp
 
 (* ---- generic lock acquisition / release at a site ---- *)
 EnterPc(k) == CASE k = "GR" -> "gr_slow" [] k = "CI" -> "ci_read" [] k = "DT" -> "dt_use" [] k = "RG" -> "rg_len"
-                [] k = "LCP" -> "lcp_use" [] k = "SPA" -> "sp_add" [] k = "SPG" -> "spg_get" [] OTHER -> "idle"
+                [] k = "LCP" -> "lcp_use" [] k = "SPA" -> "sp_find" [] k = "SPG" -> "spg_get" [] OTHER -> "idle"
 \* enter from idle (sites whose first step is the lock): CI DT RG LCP
 EnterFirst(t, op) ==
     /\ Begin(t, op) /\ op.k \in {"CI", "DT", "RG", "LCP"}
@@ -246,9 +246,16 @@ SpConst(t, op) ==
                    ELSE /\ cur' = [cur EXCEPT ![t] = op] /\ Goto(t, "enter")
                         /\ UNCHANGED <<given, ret>>
     /\ UNCHANGED <<owner, ptr, tok, builds, scanid, ids, sdoc, reglen, conv, pool, grams, reg, seen, uris>>
+\* XMLStringPool::addOrFind is a look-up followed (on a miss) by addNewEntry: two steps, atomic only under the pool's mutex
+SpFind(t) ==
+    /\ pc[t] = "sp_find"
+    /\ reg' = [reg EXCEPT ![t] = IndexOf(pool[cur[t].p], cur[t].x)]
+    /\ Acc(t, "sp_find", "spool", "r", cur[t].p, IndexOf(pool[cur[t].p], cur[t].x))
+    /\ Goto(t, "sp_add")
+    /\ UNCHANGED <<cur, owner, ptr, tok, builds, scanid, ids, sdoc, reglen, conv, pool, grams, ret, given, seen, uris>>
 SpAdd(t) ==
     /\ pc[t] = "sp_add"
-    /\ LET p == cur[t].p  x == cur[t].x  i == IndexOf(pool[p], x) IN
+    /\ LET p == cur[t].p  x == cur[t].x  i == reg[t] IN
        /\ pool' = IF i = 0 THEN [pool EXCEPT ![p] = Append(@, x)] ELSE pool
        /\ ret' = [ret EXCEPT ![t] = (IF i = 0 THEN Len(pool[p]) + 1 ELSE i) + ConstCount]
        /\ Acc(t, "sp_add", "spool", "w", p, IF i = 0 THEN Len(pool[p]) + 1 ELSE i)
@@ -279,7 +286,7 @@ Do1(t, A(_, _)) == prog[t] # <<>> /\ A(t, Head(prog[t])) /\ prog' = [prog EXCEPT
 Do(t, A(_)) == A(t) /\ UNCHANGED prog
 First(t, op) == GrFast(t, op) \/ EnterFirst(t, op) \/ SkipFirst(t, op) \/ SpConst(t, op) \/ GpCache(t, op) \/ GpUri(t, op)
 Later(t) == Enter(t) \/ Leave(t) \/ GrSlow(t) \/ GrBuild(t) \/ GrMap(t) \/ GrPub(t) \/ GrUse(t) \/ MapAlloc(t) \/ MapFill(t)
-            \/ CiRead(t) \/ CiIncr(t) \/ DtUse(t) \/ RgLen(t) \/ RgAdd(t) \/ LcpUse(t) \/ SpAdd(t) \/ SpgGet(t)
+            \/ CiRead(t) \/ CiIncr(t) \/ DtUse(t) \/ RgLen(t) \/ RgAdd(t) \/ LcpUse(t) \/ SpFind(t) \/ SpAdd(t) \/ SpgGet(t)
 ThreadNext(t) == Do1(t, First) \/ Do(t, Later)
 AllDone == \A t \in Threads : pc[t] = "idle" /\ prog[t] = <<>>
 Terminated == AllDone /\ UNCHANGED vars
@@ -305,10 +312,11 @@ ADtUse == \E t \in Threads : Do(t, DtUse)
 ARgLen == \E t \in Threads : Do(t, RgLen)
 ARgAdd == \E t \in Threads : Do(t, RgAdd)
 ALcpUse == \E t \in Threads : Do(t, LcpUse)
+ASpFind == \E t \in Threads : Do(t, SpFind)
 ASpAdd == \E t \in Threads : Do(t, SpAdd)
 ASpgGet == \E t \in Threads : Do(t, SpgGet)
 Next == AGrFast \/ AEnterFirst \/ ASkipFirst \/ ASpConst \/ AGpCache \/ AGpUri \/ AEnter \/ ALeave \/ AGrSlow \/ AGrBuild \/ AGrMap
-        \/ AGrPub \/ AGrUse \/ AMapAlloc \/ AMapFill \/ ACiRead \/ ACiIncr \/ ADtUse \/ ARgLen \/ ARgAdd \/ ALcpUse \/ ASpAdd \/ ASpgGet
+        \/ AGrPub \/ AGrUse \/ AMapAlloc \/ AMapFill \/ ACiRead \/ ACiIncr \/ ADtUse \/ ARgLen \/ ARgAdd \/ ALcpUse \/ ASpFind \/ ASpAdd \/ ASpgGet
         \/ Terminated
 Spec == Init /\ [][Next]_vars /\ \A t \in Threads : WF_vars(ThreadNext(t))
 
@@ -318,11 +326,11 @@ CSPcs(m) == CASE m = "RTM" -> {"gr_slow", "gr_build", "gr_map", "gr_pub"}
               [] m = "DOC" -> {"dt_use"}
               [] m = "REG" -> {"rg_len", "rg_add"}
               [] m = "LCP" -> {"lcp_use"}
-              [] OTHER -> {"sp_add", "spg_get"}
+              [] OTHER -> {"sp_find", "sp_add", "spg_get"}
 InCS(t, m) == cur[t] # NoOp /\ MutexOf(cur[t]) = m /\ (pc[t] \in CSPcs(m) \/ pc[t] = "leave")
 
 TypeOK == /\ pc \in [Threads -> {"idle", "enter", "leave", "gr_slow", "gr_build", "gr_map", "gr_pub", "gr_use", "gr_mapfill",
-                                 "ci_read", "ci_incr", "dt_use", "rg_len", "rg_add", "lcp_use", "sp_add", "spg_get"}]
+                                 "ci_read", "ci_incr", "dt_use", "rg_len", "rg_add", "lcp_use", "sp_find", "sp_add", "spg_get"}]
           /\ owner \in [Mutexes -> Threads \cup {0}]
           /\ ptr \in [Slots -> {0, 1}]
           /\ tok \in [Slots -> {"Null", "Ranges", "Half", "Ready"}]
